@@ -452,6 +452,8 @@ pub struct GenCfg {
     pub allow_backref: bool,
     pub allow_look: bool,
     pub allow_atomic: bool,
+    /// some named groups get all-digit names (`(?<2>..)`, `(?<07>..)`) that differ from their index
+    pub numeric_names: bool,
 }
 
 impl GenCfg {
@@ -467,6 +469,7 @@ impl GenCfg {
             allow_backref: true,
             allow_look: true,
             allow_atomic: true,
+            numeric_names: false,
         }
     }
 
@@ -621,7 +624,18 @@ impl<'a> Ctx<'a> {
                 let c = self.expr(depth - 1);
                 self.closed.push(g);
                 if named {
-                    let name = format!("n{}", g);
+                    let name = if self.cfg.numeric_names && self.rng.chance(1, 2) {
+                        // an all-digit name that is no group's index (an existing but unmatched
+                        // group with a numeric name falls back to the *numbered* group in
+                        // expansion - C12's business - so names that are also valid indices are
+                        // kept out of this workload)
+                        match self.rng.below(2) {
+                            0 => format!("{}", g + 70),
+                            _ => format!("0{}", g + 70),
+                        }
+                    } else {
+                        format!("n{}", g)
+                    };
                     self.named.push((g, name.clone()));
                     Node::Named(name, Box::new(c))
                 } else {
@@ -677,6 +691,10 @@ impl<'a> Ctx<'a> {
                 3 if self.cfg.allow_backref && !self.closed.is_empty() => {
                     let g = *self.rng.pick(&self.closed);
                     if let Some((_, name)) = self.named.iter().find(|(i, _)| *i == g) {
+                        if name.chars().all(|c| c.is_ascii_digit()) {
+                            // `\k<7>` would be read as a number: no backreference to such a group
+                            continue;
+                        }
                         return Node::NamedBackref(name.clone());
                     }
                     if self.named.is_empty() {
